@@ -79,7 +79,7 @@ func bodyVariants() []bodyV {
 }
 
 var entries = []string{"PostInbox", "PostOutbox", "GetInbox", "GetOutbox", "Handler"}
-var methods = []string{"GET", "POST", "PUT", "HEAD", "DELETE"}
+var methods = []string{"GET", "POST", "PUT", "HEAD", "DELETE", "post", "Get"} // HTTP methods are case-sensitive tokens
 var outcomes3 = []ap.Outcome{ap.OK, ap.Denied, ap.Error}
 var authOutcomes = []ap.Outcome{ap.OK, ap.Denied, ap.Error, ap.ErrorTrue}
 
